@@ -9,7 +9,7 @@ for d in harness/*/; do
   if [ -f "$d/SCHED" ]; then
     go build -o .build/mkoverlay ./cmd/mkoverlay && .build/mkoverlay -o .build/overlay.json || exit 1
     go build -overlay .build/overlay.json -o ".build/$id" "./$d" || exit 1
-    go build -race -overlay .build/overlay.json -o ".build/$id.race" "./$d" || exit 1
+    if [ ! -f "$d/NORACE" ]; then go build -race -overlay .build/overlay.json -o ".build/$id.race" "./$d" || exit 1; fi
   else
     go build -o ".build/$id" "./$d" || exit 1
   fi
